@@ -447,9 +447,18 @@ func keyPool(r *h.Rand, n int, nul bool) []keyTok {
 		name := fmt.Sprintf("m%d", i)
 		switch {
 		case nul && i%3 == 0:
-			name = fmt.Sprintf("n%d\x00", i/3%4) // a name ending in NUL …
-		case nul && i%3 == 1:
-			name = fmt.Sprintf("n%d%c", i/3%4, 'a'+byte(i%5)) // … and one differing from it in the last byte only
+			// a name ending in NUL and, in the SAME partition, a name differing from it in the
+			// last byte only: a create of the second one torn inside that byte leaves the bytes
+			// of the first one's key
+			a := mkKey(fmt.Sprintf("n%d\x00", i/3))
+			pool = append(pool, a)
+			for c := 'a'; c <= 'z'; c++ {
+				if b := mkKey(fmt.Sprintf("n%d%c", i/3, c)); b.part == a.part {
+					pool = append(pool, b)
+					break
+				}
+			}
+			continue
 		case r.Chance(0.25):
 			pool = append(pool, mkKey(name, "host", fmt.Sprintf("h%d", r.Intn(3))))
 			continue
@@ -577,6 +586,31 @@ func genBigPartition(r *h.Rand, p int) []string {
 	return ops
 }
 
+// genNulCollision: a series whose name ends in NUL exists; creating a series whose key
+// differs only in that byte is torn exactly before it.
+func genNulCollision(r *h.Rand) []string {
+	i := r.Intn(50)
+	a := mkKey(fmt.Sprintf("n%d\x00", i))
+	var b keyTok
+	for c := 'a'; c <= 'z'; c++ {
+		if b = mkKey(fmt.Sprintf("n%d%c", i, c)); b.part == a.part {
+			break
+		}
+	}
+	if b.part != a.part {
+		return []string{"reopen"}
+	}
+	other := mkKey(fmt.Sprintf("m%d", r.Intn(9)))
+	ops := []string{"create " + other.tok() + "," + a.tok(), "allids"}
+	// the key's last name byte sits at len(key)-2 (the tag count follows it)
+	cut := 9 + len(b.key) - 2
+	if r.Chance(0.3) {
+		cut = 9 + r.Intn(len(b.key)+1)
+	}
+	ops = append(ops, fmt.Sprintf("torn %s %d", b.tok(), cut), "allids", "allkeys", "create "+a.tok()+","+b.tok(), "reopen", "allids", "allkeys")
+	return ops
+}
+
 func gen(r *h.Rand, tier string, emit func([]string)) {
 	n := 40
 	if tier == "thorough" {
@@ -596,6 +630,9 @@ func gen(r *h.Rand, tier string, emit func([]string)) {
 		}
 		if i%8 == 6 {
 			emit(genBigPartition(r, r.Intn(7)))
+		}
+		if i%8 == 3 {
+			emit(genNulCollision(r))
 		}
 	}
 	emit([]string{"create", "create zz", "create 6161", "create 6161:9", "id 61:1 x", "key x", "delete -1", "torn 6161:1", "state 9", "reopen", "allids"})
